@@ -7,7 +7,7 @@ From Argot Require Import Model.Cond Proofs.Cond.
 (* ---- the FULL statement of the validator half (a Definition: it does NOT hold of the code as it is) -------------- *)
 Definition C02_validator_statement : Prop := validator_only_all_paths.
 
-(* refuted on the faithful model: 4-block diamond  b0: if !Validate(x) -> b1 | b2 ; b1,b2 -> b3: sink(x).  The one path
+(* refuted on the faithful model: 4-block diamond  b0: if ValidateErr(x) != nil -> b1 | b2 ; b1,b2 -> b3: sink(x).  The one path
    found (b0 b2 b3) takes the validated else-branch, the path through b1 bypasses the check.  Confirmed on the real tool. *)
 Theorem validator_drop_refuted : ~ validator_only_all_paths.
 Proof. exact Cond.validator_drop_refuted. Qed.
@@ -40,9 +40,7 @@ Proof. exact Cond.find_path_sound. Qed.
 
 Theorem find_path_complete : forall g src dst,
   wf_cfg g -> (exists p, cfg_path g src dst p) -> exists raw, find_path g src dst = Found raw.
-Proof.
-  intros g src dst W [p [t [Ht _]]]. apply Cond.find_path_complete; eauto.
-Qed.
+Proof. exact Cond.find_path_complete_cfg. Qed.
 
 (* isValidatorCondition / isValuePredicateTo characterised *)
 Theorem ivc_sound : forall c pol,
